@@ -37,7 +37,7 @@ Definition vnames (blobs : list (N * blob)) (nm : N -> option desc) (o : op) : N
     | Tag d (RName m) => if is_some (get N.eqb (d_dig d) blobs) && (m =? n) then Some d else nm n
     | Untag (RName m) => if m =? n then None else nm n
     | Delete d => match nm n with
-                  | Some d' => if gkey_eqb (gk d') (gk d) then None else Some d'
+                  | Some d' => if eq_target d' (gk d) then None else Some d'
                   | None => None
                   end
     | _ => nm n
@@ -88,11 +88,11 @@ Qed.
 Lemma names_untag_fold k t n :
   NoDup (map fst t) ->
   names_of (untag_fold k t t) n =
-  match names_of t n with Some d' => if gkey_eqb (gk d') k then None else Some d' | None => None end.
+  match names_of t n with Some d' => if eq_target d' k then None else Some d' | None => None end.
 Proof.
   intro Hnd. unfold names_of. rewrite (untag_fold_order_free k t t (RName n) Hnd) by tauto.
   unfold spec_untag_equal. rewrite get_filter_nodup by exact Hnd. simpl.
-  destruct (get ref_eqb (RName n) t) as [d'|]; auto. now destruct (gkey_eqb (gk d') k).
+  destruct (get ref_eqb (RName n) t) as [d'|]; auto. now destruct (eq_target d' k).
 Qed.
 
 (* the sequential step acts on the view as [vblobs] / [vnames] *)
@@ -155,7 +155,7 @@ Section OciConc.
   Variable B : N -> blob.
 
   Definition wf_op (o : op) : Prop :=
-    canon_op U o /\ match o with Push d c => verify d c = true -> c = B (d_dig d) | _ => True end.
+    canon_op_all U o /\ match o with Push d c => verify d c = true -> c = B (d_dig d) | _ => True end.
 
   Definition oremaining (t : othread) : list op :=
     match ot_pc t with
@@ -671,7 +671,7 @@ Section OciConc.
       { rewrite (oquiescent_remaining _ Hq), app_nil_r in Hperm. exact Hperm. }
       assert (Hcan : Forall (canon_op U) (map snd (oc_log cf))).
       { eapply Forall_impl; [|eapply Permutation_Forall; [apply Permutation_sym; exact Hperm0 | exact Hwf]].
-        intros o [A _]. exact A. }
+        intros o [A _]. apply canon_op_all_weaken. exact A. }
       destruct (run_refines_oci U U_dig (map snd (oc_log cf)) oci_init Hcan (oci_inv_init U)) as (_ & _ & [_ Hg2 _]).
       fold (seq_ostate (map snd (oc_log cf))) in Hg2. rewrite <- Hbl in Hg2.
       assert (Hg1 : graph_inv (S_oci U (o_blobs (oc_store cf))) (o_graph (oc_store cf))).
@@ -705,3 +705,16 @@ Qed.
 
 Lemma ox_quiescent : oquiescent (oconf_run (oconf_init ox_progs) ox_sched) = true.
 Proof. vm_compute. reflexivity. Qed.
+
+Theorem conc_fetch_matches_oci (U : N -> gkey) (B : N -> blob) (progs : list (list op)) (sched : list nat) d hash len :
+  (forall g, k_dig (U g) = g) -> Forall (wf_op U B) (concat progs) ->
+  snd (oci_step (oc_store (oconf_run (oconf_init progs) sched)) (Fetch d)) = OBytes hash len ->
+  hash = d_dig d.
+Proof.
+  intros HU Hwf. pose proof (oinv_run U HU B progs sched Hwf _ (oinv_init U B progs)) as Hinv.
+  destruct Hinv as [_ _ Hbl _ _ _ _ _ _ _].
+  assert (H : blobs_verified (o_blobs (oc_store (oconf_run (oconf_init progs) sched)))).
+  { rewrite Hbl. unfold seq_ostate. apply oci_run_verified. intros g c X. discriminate. }
+  simpl. destruct (get N.eqb (d_dig d) (o_blobs (oc_store (oconf_run (oconf_init progs) sched)))) as [c|] eqn:E; [|discriminate].
+  intro X. injection X as <- _. apply (H _ _ E).
+Qed.
